@@ -64,6 +64,24 @@ theorem roundtrip_unique_full (e : CE) (he : full e = true) (x : PyAst × List P
     (hx : Ev (fun fuel => parse fuel 1 (pr e)) x) : x = (embed e, []) :=
   Ev.unique hx (print_parse_roundtrip_full e he)
 
+/-- **builder_conditions_roundtrip**: the `if` clause the printer builds for a list, set or dictionary
+    builder — `operand(c, PREC_NOT)` for every condition, joined with `and` (the minimum is REGENERATED
+    from the Rust source as `precCompCond`) — parses, at the grammar level Python prescribes for a
+    comprehension condition (`disjunction`), to the conjunction of the conditions, each condition intact
+    as one operand, whatever the conditions are (`or`, conditional expressions, lambdas, …).  `rest` is
+    whatever follows the clause (a closing bracket, a further `for`): it must not continue an
+    expression at the `or` level or above. -/
+theorem builder_conditions_roundtrip (c : CE) (cs : List CE) (hc : full c = true) (hcs : fullAll cs = true)
+    (rest : List PTok) (hstop : Stop 3 rest) :
+    Ev (fun fuel => parse fuel 3 (condChain (c :: cs) ++ rest)) (andFold (embed c) cs, rest) :=
+  condChain_S c cs ⟨S_all2 c hc, S_list cs hcs⟩ rest hstop
+
+/-- non-vacuity: `[... if (a or b) and (x if c else y) and not z]` meets the hypotheses, and the closing
+    bracket stops every level -/
+example : full (.bin .Or (.atom "a") (.atom "b")) = true ∧
+    fullAll [.ternary (.atom "c") (.atom "x") (.atom "y"), .un .Not (.atom "z")] = true ∧ Stop 3 [PTok.rbr] :=
+  ⟨by decide, by decide, stop_of_none .rbr [] 3 rfl⟩
+
 /-- the operator fragment is part of the full language -/
 theorem frag_full : (e : CE) → frag e = true → full e = true
   | .atom _, _ => rfl
